@@ -39,6 +39,10 @@ CHECKS["C15"] = dict(cat="exploration", technique="exhaustive enumeration opcode
              text="For every 1-, 2- and 3-operand opcode every combination of 30 operand kinds (registers of each type, each immediate kind, memory of each of 15 types, label, references, string) at every position is built through the API in a fresh context; the error callback must fire exactly when the MIR.md rule table rejects the combination. "
                   "Arity -1/+1 for every opcode and 40 scripted declaration / ret / call-prototype / overflow-branch / switch cases complete the space.",
              note="rule table in checks/c15_illformed.c is independent of insn_descs[]; address-valued operands (refs, strings) in integer positions are counted as unconstrained; va_* and property insns outside the cross product", ref="§3 C15")
+CHECKS["C13"] = dict(cat="model_checking", technique="explicit-state BFS over load/load_external/link histories on the real context (state = replayed history), lock-step reference model of the name table and pending list",
+             text="All histories up to depth 7 (thorough 8) over load of eight modules (two exporters of function v, two of data w, three importers, a forward+export module and its importer), three external registrations, link, link with resolver and the redefinition permission are executed on a fresh real context; "
+                  "after each link every importer linked in that step is interpreted and must run the definition that was latest when the step began to resolve it; error codes for undefined imports and repeated function definitions are compared with the model.",
+             note="only importers linked in the current step are judged (the property speaks of the moment the step completes); function-over-external/data redefinition without permission is unconstrained; pending list enters the canonical state from the model", ref="§3 C13")
 NOT_YET = {}
 def main():
     props = [json.loads(l) for l in open(os.path.join(VERIF, "properties.jsonl"))]
